@@ -445,8 +445,15 @@ def sameFileDefset : IxM (Option Nat) := do
   let dsFile ← withSM fun sm => (sm.defset defsetId).defineLoc.file
   return if dsFile == file then some defsetId else none
 
+/-- the defset a `def` joins: `current_defset_id().filter(|id| current_multiclass_id().is_none() &&
+defset(id).define_loc.file == current_file_id())` - a def written inside a multiclass never joins a defset
+around the multiclass -/
+def defDefset : IxM (Option Nat) := do
+  let ds ← sameFileDefset
+  return if (← currentMulticlassId).isSome then none else ds
+
 def indexDef (r : Rec) (n : PTree) : IxM Unit := do
-  let defsetId ← sameFileDefset
+  let defsetId ← defDefset
   let mut defId := 0
   -- a name that is computed (`def !strconcat(..)`, `def "a" # b`) makes an anonymous record
   let named ← match Ast.defName n with
